@@ -309,7 +309,8 @@ def fam_fold_chain(rng: Rng) -> str:
     ver = 20
     if v.startswith("float"):
         k2 = f"float[3] k2 = {{{b}, {a}, 1.0}}" if v == "float_bad_broadcast" else f"float[2] k2 = {{{b}, {a}}}"
-        first = "c = Add(x, k2)" if v == "float_not_foldable" else "c = Add(k1, k2)"
+        fop = rng.choice(["Add", "Add", "Mul", "Sub"])   # the same value names produced by different operators
+        first = f"c = {fop}(x, k2)" if v == "float_not_foldable" else f"c = {fop}(k1, k2)"
         return f"""<ir_version: 10, opset_import: ["" : {ver}]>
 agraph (float[2] x) => (float[?] y)
 <float[2] k1 = {{{a}, {b}}}, {k2}>
@@ -349,17 +350,26 @@ agraph (float[3,2] x) => (float[?,?] y)
 
 
 def fam_rms_norm(rng: Rng) -> str:
-    """RMS-normalisation subgraph (rules/fusion/_rms_normalization stashes the compute dtype in check())."""
-    xt, xn = rng.choice([("float16", 10), ("float", 1), ("double", 11)])
+    """RMS-normalisation subgraph (rules/fusion/_rms_normalization and ort_fusions/rms_normalization stash the compute
+    dtype in check(); the ORT pattern also accepts the scale through a Cast)."""
+    scale_via = _variant(rng, [("direct", 3), ("cast_to_compute", 2), ("cast_to_target", 2), ("direct_fp16", 1)])
+    xt, xn = ("float16", 10) if scale_via != "direct" else rng.choice([("float16", 10), ("float", 1), ("double", 11)])
     compute = rng.choice([1, 11]) if xt == "float16" else None
     eps = rng.choice(["1e-05", "1e-06", "0.001"])
     ct = {1: "float", 11: "double"}.get(compute, xt)
     xin, nout = ("xc", "nc") if compute else ("x", "n")
-    order = rng.choice([f"Mul({nout}, scale)", f"Mul(scale, {nout})"])
     cast_in = f"xc = Cast <to = {compute}> (x)" if compute else "unused_in = Identity(x)"
     cast_out = f"nc = Cast <to = {xn}> (n)" if compute else "unused_out = Identity(scale)"
+    # how the scale reaches the final Mul: directly, or through a Cast to the compute type (result stays in the compute
+    # type), or through a Cast to the input type from a scale kept in the compute type (mixed precision)
+    scale_decl, scale_stmt, out_t, sc = f"{xt}[4] scale", "", xt, "scale"
+    if scale_via == "cast_to_compute":
+        scale_stmt, sc, nout, out_t, cast_out = f"sc = Cast <to = {compute}> (scale)\n   ", "sc", "n", ct, "unused_out = Identity(scale)"
+    elif scale_via == "cast_to_target":
+        scale_decl, scale_stmt, sc = f"{ct}[4] scale", f"sc = Cast <to = {xn}> (scale)\n   ", "sc"
+    order = rng.choice([f"Mul({nout}, {sc})", f"Mul({sc}, {nout})"])
     return f"""<ir_version: 10, opset_import: ["" : 23]>
-agraph ({xt}[2,4] x, {xt}[4] scale) => ({xt}[2,4] y)
+agraph ({xt}[2,4] x, {scale_decl}) => ({out_t}[2,4] y)
 <{ct} eps = {{{eps}}}, {ct} two = {{2.0}}, int64[1] axes = {{-1}}>
 {{
    {cast_in}
@@ -370,7 +380,7 @@ agraph ({xt}[2,4] x, {xt}[4] scale) => ({xt}[2,4] y)
    rr = Reciprocal(rms)
    n = Mul({xin}, rr)
    {cast_out}
-   y = {order}
+   {scale_stmt}y = {order}
 }}"""
 
 
@@ -513,7 +523,7 @@ FAMILIES = {
 
 # families whose members walk through declared variants: a batch takes one member per variant (capped), so that every
 # special path of the rule's check() is in every batch; other families vary only in parameters and get 3 members
-N_VARIANTS = {"pad_conv": 12, "reshape_reshape": 8, "fold_chain": 9, "slice_split": 7, "const_if": 7}
+N_VARIANTS = {"rms_norm": 4, "pad_conv": 12, "reshape_reshape": 8, "fold_chain": 9, "slice_split": 7, "const_if": 7}
 
 
 def members_per_batch(family: str, default: int, cap: int = 9) -> int:
